@@ -256,6 +256,23 @@ def run(ck, F):
     import c02 as _c02
     _c02.redeclaration_operands(ck, F, 'C09', only={'type'})
 
+    # members entered into an enumeration, a parameter list, a base list: the enumerator has the enumeration as its type, a parameter
+    # or a base the type it was given -- on every path, whatever else the owner has been told since (an underlying type, ...)
+    MEMBER_TYPES = {'ipr::impl::Enum::add_member(const ipr::Name &)': '$this',
+                    'ipr::impl::Class::declare_base(const ipr::Type &)': 'P0',
+                    'ipr::impl::Parameter_list::add_member(const ipr::Name &, const ipr::Type &)': 'P1',
+                    'ipr::impl::Mapping::param(const ipr::Name &, const ipr::Type &)': 'P1'}
+    for fid, want in sorted(MEMBER_TYPES.items()):
+        paths = cur.get(fid)
+        if paths is None:
+            raise AnalysisBroken(f'anchor vanished: {fid}')
+        for i, p in enumerate(paths):
+            if 'accessors' not in p:
+                continue
+            got = p['accessors'].get('type')
+            sid = '::'.join(contracts.fn_qname(fid).split('::')[-2:]) + '/' + str(len(F.fn[fid]['params']))
+            ck.check(R_given, f'{sid}#{i}', got == want, f'{fid}: type() of the member yields `{got}`, expected `{want}`' +
+                     (f' (when {p.get("when")[:80]})' if p.get('when') else ''), loc=F.fn[fid]['loc'], fn=fid)
     # id-expression of a declaration: that declaration's type
     for fid, paths in cur.items():
         if fid == 'ipr::impl::expr_factory::make_id_expr(const ipr::Decl &)':
